@@ -6,7 +6,7 @@
 From Coq Require Import List NArith Bool Lia.
 From Coq.Strings Require Import Byte.
 Import ListNotations.
-From OV Require Import Model.Value Model.XPathFrag Model.Decl Model.Eval Proofs.PipelineC02.
+From OV Require Import Model.Value Model.XPathFrag Model.Decl Model.Eval Proofs.PipelineC02 Gen.DeclHash.
 From OV Require Import Base.Bytes Base.Tree Model.Pipeline Proofs.Pipeline Proofs.PipelineCache Proofs.PipelineInst Proofs.PipelineCanon.
 
 Section C13.
@@ -88,7 +88,24 @@ Section C13_C02.
   Theorem caches_invisible_c02 : forall h h' s ctx us,
     Inv0 h -> Inv0 h' -> run_env_c02 h s ctx us = run_env_c02 h' s ctx us.
   Proof. exact (caches_invisible_c02 query ext fsigs fcall pcall query_valid marshal marshal_err_cont H canon). Qed.
+
+  (* ... tied to the source: the evaluator model identifies a declaration's hash with the
+     declaration (Model/Decl.v wf_b: v_hash = pub_of d).  That is a fact about
+     validate.go computeDeclHash - the hash table is keyed by the declaration's FULL encoding -
+     which is re-extracted from the source on every run (Gen/DeclHash.v).  A change that keys the
+     table by anything coarser (a digest, a prefix) makes the first conjunct unprovable. *)
+  Theorem caches_invisible_c02_src :
+    decl_hash_key_is_full_encoding = true /\
+    forall h h' s ctx us, Inv0 h -> Inv0 h' -> run_env_c02 h s ctx us = run_env_c02 h' s ctx us.
+  Proof.
+    exact (conj (eq_refl true)
+                (PipelineC02.caches_invisible_c02 query ext fsigs fcall pcall query_valid marshal marshal_err_cont H canon)).
+  Qed.
 End C13_C02.
+
+(* the extracted source fact on its own *)
+Theorem decl_hash_key_full : decl_hash_key_is_full_encoding = true.
+Proof. reflexivity. Qed.
 
 (* Node pool facts the proof rests on (the pipeline-level counterpart of C12's fresh_blank /
    pool_disjoint_nodup / ids_unique), proved here for the allocator model of Model/Pipeline.v:
